@@ -15,11 +15,18 @@ CLAIMED = {
  "C06": "arbitrary short texts (every character symbolic) and every catalogue program with one character position replaced by / preceded by a symbolic character or deleted/duplicated; outcome must be a tree or FortranSyntaxError; per-path wall-clock limit detects non-termination; codec error handler checked for progress",
  "C07": "every statement of every catalogue program replaced by symbolic garbage on one or two physical lines; the error message's line number and quoted text compared (z3 equality on the symbolic message) with the known last line of the statement",
  "C08": "structural edits (delete opener / END, surplus END, END name := symbolic different name, delete/insert one parenthesis outside character context) of every construct in several contexts; each edited program must raise",
+ "C09": "every history of length <= 2 (3 thorough) over {create(f2003), create(f2008), parse(valid_i), parse(invalid_j)} followed by create(s); parse(x) compared with a hard-reset run (tree, text, symbol tables), unit names symbolic so that name coincidences across parses are decided by the solver; scope/table checks after every failing parse; memoised tokenisation vs the un-memoised function on symbolic lines",
  "C10": "same exploration as C01; on every path (every back-tracking pattern the symbolic lexeme can provoke) the tree and the re-parsed tree satisfy the parent/children/root/walk invariants",
+ "C11": "comments inserted at every line boundary and on every line of catalogue programs (1-2 per program, also inside continued statements), first comment text symbolic; comment nodes in order with unchanged text, once in the regenerated text, ignored comments change nothing, Directive nodes exactly on directive-form full-line comments",
  "C12": "reader-level: every catalogue statement continued at every split point with comments/blank lines/';'; expected items (text modulo blanks outside literals, label, construct name, span, comments in order) known by construction from an independent layout oracle; symbolic get/put/look-ahead schedules over streams",
+ "C13": "runs of statements moved into (nested) include files in a virtual file system (temporary directory natively), include line spelling and file name symbolic, file in first/second/both include directories with decoys; tree equality with the original text; absent files keep an Include_Stmt",
+ "C14": "preprocessor directives of all kinds (incl. backslash continuations over 2-3 lines) inserted at every statement boundary, payload identifier symbolic; tree without directive nodes equals the original tree, directive nodes in order with equal content and present in the regenerated text",
  "C15": "simple statements hidden behind OpenMP conditional sentinels in free and fixed form, continued over one or two sentinel lines; symbolic character after '!$' (decides conditional line vs comment), sentinel letter, column 6, continuation mark; trees compared with the sentinel-blanked / statement-removed programs",
+ "C16": "scope shapes (program, module with contained subprograms, BLOCK, internal function, external subprograms, nesting of three) x every subset of declaring scopes; the declared/referenced name symbolic (all names of length 3, 4 for the single-scope shape) and unit-name case symbolic; table tree vs scope tree by construction; intrinsic classification vs visibility of declarations",
  "C17": "differential symbolic execution: the same symbolic program through the f2003 and f2008 registries inside one path; acceptance implication and text equality decided by z3",
  "C18": "real copy.deepcopy and pickle round trip on every explored path; equality of printed text and structure for all lexemes decided by z3; class coverage from the catalogue",
+ "C19": "fparser1 (fparser.api.parse): catalogue programs of the F77/F90 subset and all nestings of its block constructs, one symbolic lexeme, free and fixed form, analyze on/off; second round trip equal, block structure equal, tokens of the regenerated source equal the program's (case-insensitively)",
+ "C20": "count of Base.__new__ activations for size-indexed families at n and 2n with symbolic labels / names (every label equality pattern); doubling ratio and absolute polynomial budget with an attempt cap",
 }
 NA = {}
 def chk(pid):
